@@ -34,7 +34,7 @@ func init() {
 		Level: "exploration",
 		Modes: []Mode{{Name: "pollq", Weight: 5}, {Name: "pktq", Weight: 4}},
 		Gen:   genC19, Run: runC19,
-		QuickRuns: 12000, ThoroughRuns: 200000,
+		QuickRuns: 12000, ThoroughRuns: 600000,
 		Rule: "plan = (mode, poll time-out, consumer/producer scripts with fake timestamps, stall seed/rate/focus) drawn from VERIF_SEED; " +
 			"non-trivial = at least one packet was added while a consumer was between its emptiness check and its wait, or while it was parked (probe counters); " +
 			"distinct = distinct digest of the fired (site,hit,ns) stall decisions together with the time-free handoff shape",
